@@ -33,7 +33,7 @@ type c17Res struct {
 
 func c17Lengths(thorough bool) []int {
 	set := map[int]bool{}
-	lo, hi := 65520, 65560
+	lo, hi := 65528, 65546
 	if thorough {
 		lo, hi = 65500, 65600
 	}
@@ -80,7 +80,7 @@ func c17Place(pos, long string, s1, s2 string, finalNL bool) string {
 	return t
 }
 
-var c17Cmds = []string{"format directive", "generate include pairs", "generate block", "compare", "generate definition", "generate definition repeated", "generate entry", "generate include", "generate include-except", "generate cmdline", "format", "renumber-tests", "update-copyright", "update"}
+var c17Cmds = []string{"generate segment", "format directive", "generate include pairs", "generate block", "compare", "generate definition", "generate definition repeated", "generate entry", "generate include", "generate include-except", "generate cmdline", "format", "renumber-tests", "update-copyright", "update"}
 
 func C17(r *core.Run) {
 	dir := ""
@@ -186,6 +186,14 @@ func C17(r *core.Run) {
 				entry = "x" + long[:len(long)-2] + "bb"
 			}
 			ok, why := matchAll(o.Out, entry, "sentineluno", "sentineltwo", "before", "after")
+			return verdict(ok, false, true, why, len(o.Out))
+		case "generate segment":
+			// the lines form a segment that a concatenation marker ends (top level and stored)
+			o := root.Generate(c17Place(c.Pos, "x"+long, "sentinelone", "sentineltwo", true) + "##!=>\ntail\n##!=< keep\n" + c17Place(c.Pos, "y"+long, "sentinelone", "sentineltwo", true) + "##!=> keep" + map[bool]string{true: "\n", false: ""}[c.FinalNL])
+			if o.Kind != inproc.OK {
+				return verdict(false, true, true, "", 0)
+			}
+			ok, why := matchAll(o.Out, "y"+long+"x"+long+"tail", "sentinelone"+"sentineltwo"+"tail", "sentineltwo"+"sentinelone"+"tail")
 			return verdict(ok, false, true, why, len(o.Out))
 		case "generate block":
 			// the long line inside a nested block, stored and used twice
